@@ -109,6 +109,11 @@ Predict(mode) ==
          LET c == Check(task, TRUE) st0 == [ck |-> c.ck, mk |-> c.mk]
              st == Invalidate(task, st0) IN
          out(<<1>>, 201, AfterFailure(task, st))
+    [] mode = "retryfail1" ->   \* the task is attempted TWICE in one invocation (called twice by a task that ignores errors)
+         \* and its first command fails both times: each attempt checks, records and forgets on its own
+         LET c == UpToDate(task, TRUE) st0 == [ck |-> c.ck, mk |-> c.mk] IN
+         IF c.up THEN out(<<>>, 0, st0)
+         ELSE out(<<1, 1>>, 0, AfterFailure(task, Invalidate(task, st0)))
     [] OTHER ->  \* run, other, fail*, kill*, prompt
          LET c == UpToDate(task, TRUE) st0 == [ck |-> c.ck, mk |-> c.mk] IN
          IF c.up THEN out(<<>>, IF mode = "cancelsib" THEN 201 ELSE 0, st0)
@@ -119,7 +124,7 @@ Predict(mode) ==
                 [] b.how = "fail" -> out(b.ran, b.exit, AfterFailure(task, st))
                 [] b.how = "kill" -> out(b.ran, b.exit, st)
 
-Modes == {"run", "other", "fail1", "fail2", "failpre", "depfail1", "forcefail1", "cancelsib", "kill1", "kill2", "prompt", "force", "dry", "status", "list", "listjson", "summary", "drydir", "dryfailpre", "dryforce"}
+Modes == {"run", "other", "fail1", "fail2", "failpre", "depfail1", "forcefail1", "retryfail1", "cancelsib", "kill1", "kill2", "prompt", "force", "dry", "status", "list", "listjson", "summary", "drydir", "dryfailpre", "dryforce"}
 
 \* an invocation as the model sees it: the observation is the prediction, read-only modes change nothing
 Invoke(mode) ==
